@@ -21,8 +21,9 @@ Model: `Poulpy/Model/Core/Ks.lean` (what `pdriver ks` executes).  Two layers, as
   (`product_accum_dsize_gt1`, phase level `keyswitch_phase_dsize_gt1`), each pass is an instance
   (`product_pass_phase_partial`) on the regrouped input (`product_pass_selection_partial`); only the notational
   identification of these list sums with the `Finset` sums of `Gadget.acc` is left (see the FULL STATEMENT block).
-* The defect found by the correspondence (fused automorphism forms read an un-zeroed scratch
-  buffer for `dsize ≥ 3`) is proved of the model as `fused_reads_stale_counterexample`.
+* `product_determined`: the product does not depend on the previous content of its result buffer (the
+  defect found by the correspondence — fused automorphism forms read an un-zeroed scratch buffer for
+  `dsize ≥ 3` — was repaired upstream, poulpy d3c2e96, while this slice was built).
 -/
 
 namespace C03
@@ -295,7 +296,7 @@ example : ∃ prod : Buf,
     (entry_length exKey 2 rfl (by decide))
 
 /- FULL STATEMENT (last step not proved): `keyswitch_phase` for `dsize > 1` in the vocabulary of `Gadget.acc`.
-   For every key with `2 ≤ dsize`, `dnum·dsize ≤ key.size`, every well-formed zeroed `res` (size = key.size) and
+   For every key with `2 ≤ dsize`, `dnum·dsize ≤ key.size`, every well-formed `res` (max_size = key.size) and
    input `a`, for all `l < key.size`:
      phaseRow sk (bufRow (gglweProductDft res a key) l)
        = Σ_{di<dsize} Σ_{r<rowsOf a.size dsize dnum di} Σ_{i<rank_in}
@@ -378,20 +379,20 @@ theorem product_pass_selection_partial (a : Buf) (key : Key) (st : ProdSt) (di c
 /-! ### `dsize > 1`: the accumulation over the passes (full, data level and phase level) -/
 
 /-- **`product_accum_dsize_gt1`** — the `dsize > 1` branch of `gglwe_product_dft`, limb by limb: pass 0
-*overwrites* the limbs `< passSize 0 = size − (dsize−2)` with its vector-matrix product (the other limbs
-keep the previous content of `res`), every later pass `di` *adds* the product with `limb_offset = di`
-of the regrouped input `aiFlatOf … di` (selection `(dsize, dsize−1−di)`, `min((a_size+di)/dsize, dnum)` rows)
-into the limbs `< passSize di`.  This is the executable counterpart of `Gadget.acc`. -/
+writes its vector-matrix product into the limbs `< passSize 0 = size − (dsize−2)` and zeroes the others
+(whatever `res` contained), every later pass `di` *adds* the product with `limb_offset = di` of the
+regrouped input `aiFlatOf … di` (selection `(dsize, dsize−1−di)`, `min((a_size+di)/dsize, dnum)` rows) into the
+limbs `< passSize di`.  This is the executable counterpart of `Gadget.acc`. -/
 theorem product_accum_dsize_gt1 (res a : Buf) (key : Key) (hD : 2 ≤ key.dsize) (hres : res.WF)
-    (hsz : res.size = key.mat.size) (hmax : res.maxSize = key.mat.size) (hcols : res.cols = key.mat.colsOut)
+    (hmax : res.maxSize = key.mat.size) (hcols : res.cols = key.mat.colsOut)
     (hn : res.n = a.n) (l c : Nat) (hc : c < res.cols) :
     limbOr0 res.n ((gglweProductDft res a key).act c) l =
       (List.range (key.dsize - 1)).foldl
         (fun acc k => if l < passSize key (k + 1) then polyAdd acc (passEntry a key res.n (k + 1) l c) else acc)
-        (if l < passSize key 0 then passEntry a key res.n 0 l c else limbOr0 res.n (res.act c) l) :=
-  product_accum res a key hD hres hsz hmax hcols hn l c hc
+        (if l < passSize key 0 then passEntry a key res.n 0 l c else zeroP res.n) :=
+  product_accum res a key hD hres hmax hcols hn l c hc
 
-example : (List.range 4).map (fun l => limbOr0 1 ((gglweProductDft (zeroBuf 1 1 4) AccumExample.exA3 AccumExample.exKey3).act 0) l)
+example : (List.range 4).map (fun l => limbOr0 1 ((gglweProductDft AccumExample.dirty3 AccumExample.exA3 AccumExample.exKey3).act 0) l)
     = [[1], [1], [0], [0]] := by decide
 
 /-- phase of limb `l` of the product of pass `di` -/
@@ -444,79 +445,60 @@ theorem phaseRow_foldl_cond (n C : Nat) (sk : List Poly) (K : List Nat) (P : Nat
     · simp only [hp, if_false]
       exact ih init hi
 
-/-- limbs of a buffer whose stored polynomials all have `b.n` coefficients (missing limbs read as zero) -/
-theorem act_limb_length (b : Buf) (h : ∀ col ∈ b.data, ∀ p ∈ col, p.length = b.n) (c l : Nat) :
-    (limbOr0 b.n (b.act c) l).length = b.n := by
-  unfold limbOr0
-  apply getD_length_of_all
-  intro p hp
-  unfold Buf.act at hp
-  have hp' := List.mem_of_mem_take hp
-  rw [List.getD_eq_getElem?_getD] at hp'
-  cases hc : b.data[c]? with
-  | none => simp [hc] at hp'
-  | some col => simp [hc] at hp'; exact h col (List.mem_of_getElem? hc) p hp'
-
 /-- **`keyswitch_phase_dsize_gt1`** — phase of the `dsize > 1` product: the phase (under any secret) of limb
-`l` of `gglwe_product_dft` is the phase of pass 0's product (or of the previous content of `res` on the limbs
-pass 0 does not write) plus the phases of the later passes' products on the limbs they reach; each
-`passPhase … di l` is `Σ_j ai_j ⋆ phase(key row j, limb l+di)` by `vmp_phase_commutes`, with
-`ai = aiFlatOf … di` the digit selection — i.e. the executable product instantiates `Gadget.acc`. -/
+`l` of `gglwe_product_dft` is the phase of pass 0's product (zero on the limbs pass 0 does not write) plus the
+phases of the later passes' products on the limbs they reach; each `passPhase … di l` is
+`Σ_j ai_j ⋆ phase(key row j, limb l+di)` by `vmp_phase_commutes`, with `ai = aiFlatOf … di` the digit
+selection — i.e. the executable product instantiates `Gadget.acc`. -/
 theorem keyswitch_phase_dsize_gt1 (sk : List Poly) (res a : Buf) (key : Key) (hD : 2 ≤ key.dsize) (hres : res.WF)
-    (hsz : res.size = key.mat.size) (hmax : res.maxSize = key.mat.size) (hcols : res.cols = key.mat.colsOut)
-    (hn : res.n = a.n) (hM : ∀ j q, (key.mat.entry j q).length = res.n)
-    (hR : ∀ c l, (limbOr0 res.n (res.act c) l).length = res.n) (l : Nat) :
+    (hmax : res.maxSize = key.mat.size) (hcols : res.cols = key.mat.colsOut) (hc0 : 0 < key.mat.colsOut)
+    (hn : res.n = a.n) (hM : ∀ j q, (key.mat.entry j q).length = res.n) (l : Nat) :
     phaseRow sk ((List.range res.cols).map (fun c => limbOr0 res.n ((gglweProductDft res a key).act c) l)) =
       (List.range (key.dsize - 1)).foldl
         (fun acc k => if l < passSize key (k + 1) then polyAdd acc (passPhase sk a key res.n (k + 1) l) else acc)
-        (if l < passSize key 0 then passPhase sk a key res.n 0 l else phaseRow sk (bufRow res l)) := by
+        (if l < passSize key 0 then passPhase sk a key res.n 0 l else zeroP res.n) := by
   have e1 : (List.range res.cols).map (fun c => limbOr0 res.n ((gglweProductDft res a key).act c) l) =
       (List.range res.cols).map (fun c => (List.range (key.dsize - 1)).foldl
         (fun acc k => if l < passSize key (k + 1) then polyAdd acc (passEntry a key res.n (k + 1) l c) else acc)
-        (if l < passSize key 0 then passEntry a key res.n 0 l c else limbOr0 res.n (res.act c) l)) := by
+        (if l < passSize key 0 then passEntry a key res.n 0 l c else zeroP res.n)) := by
     apply List.map_congr_left
     intro c hc
-    exact product_accum res a key hD hres hsz hmax hcols hn l c (List.mem_range.mp hc)
+    exact product_accum res a key hD hres hmax hcols hn l c (List.mem_range.mp hc)
   rw [e1, phaseRow_foldl_cond res.n res.cols sk _ (fun k => l < passSize key (k + 1))
     (fun k c => passEntry a key res.n (k + 1) l c) _ (fun k c => passEntry_length a key res.n (k + 1) l c hM)
     (by intro c; split
         · exact passEntry_length a key res.n 0 l c hM
-        · exact hR c l)]
-  unfold passPhase bufRow
+        · simp)]
+  unfold passPhase
   rw [← hcols]
   congr 1
-  split <;> rfl
+  split
+  · rfl
+  · exact phaseRow_zero res.n sk _ (by intro p hp; simp at hp; exact hp.2.symm ▸ rfl) (by simp; omega)
 
 example : ∀ l, phaseRow [] ((List.range 1).map (fun c => limbOr0 1 ((gglweProductDft AccumExample.dirty3 AccumExample.exA3 AccumExample.exKey3).act c) l)) =
     (List.range 2).foldl (fun acc k => if l < passSize AccumExample.exKey3 (k + 1) then polyAdd acc (passPhase [] AccumExample.exA3 AccumExample.exKey3 1 (k + 1) l) else acc)
-      (if l < passSize AccumExample.exKey3 0 then passPhase [] AccumExample.exA3 AccumExample.exKey3 1 0 l else phaseRow [] (bufRow AccumExample.dirty3 l)) :=
-  fun l => keyswitch_phase_dsize_gt1 [] AccumExample.dirty3 AccumExample.exA3 AccumExample.exKey3 (by decide) AccumExample.dirty3_WF rfl rfl rfl rfl
-    (entry_length AccumExample.exKey3.mat 1 rfl (by decide))
-    (act_limb_length AccumExample.dirty3 (by decide)) l
+      (if l < passSize AccumExample.exKey3 0 then passPhase [] AccumExample.exA3 AccumExample.exKey3 1 0 l else zeroP 1) :=
+  fun l => keyswitch_phase_dsize_gt1 [] AccumExample.dirty3 AccumExample.exA3 AccumExample.exKey3 (by decide) AccumExample.dirty3_WF rfl rfl (by decide) rfl
+    (entry_length AccumExample.exKey3.mat 1 rfl (by decide)) l
 
-/-! ## The defect: fused automorphism forms read an un-zeroed scratch buffer (`dsize ≥ 3`) -/
+/-! ## No stale data: the product does not depend on the previous content of `res`
 
-def exKey3 : Key := { base2k := 4, dsize := 3, p := 1,
-                      mat := { n := 1, rows := 1, colsIn := 1, colsOut := 1, size := 4, data := [[[[1], [1], [1], [1]]]] } }
-def exA3 : Buf := { n := 1, cols := 1, size := 1, maxSize := 1, data := [[[1]]] }
-def dirty3 : Buf := { n := 1, cols := 1, size := 4, maxSize := 4, data := [[[0], [0], [0], [5]]] }
+The fused `glwe_automorphism_{add,sub,sub_negate}{,_assign}` take `res_dft` from scratch without zeroing it.
+Before poulpy d3c2e96 pass 0 of the `dsize ≥ 3` product left `dsize−2` limbs unwritten and the later passes
+added into them (found by the scratch-garbage twins of `./check C03`, plaintext destroyed); the repaired code
+zeroes those limbs, and the model (`Ks.zeroFrom` in `Ks.productStep`) with it. -/
+
+def exKey3 : Key := AccumExample.exKey3
+def exA3 : Buf := AccumExample.exA3
+def dirty3 : Buf := AccumExample.dirty3
 
 /-- non-vacuity of `product_pass_selection_partial`: pass `di = 2` of a `dsize = 3` product selects input limb 0 -/
 example : limbOr0 1 ((productStep exA3 exKey3 { res := zeroBuf 1 1 4, ai := zeroBuf 1 1 1, tmp := zeroBuf 1 1 4 } 2).ai.act 0) 0 = [1] := by
   decide
 
-/- FULL STATEMENT (false of the code): the result of `gglwe_product_dft` does not depend on the previous
-   content of `res`:  ∀ r₁ r₂ (same shape) a key, gglweProductDft r₁ a key = gglweProductDft r₂ a key.
-   True for `dsize ≤ 2` (every limb is overwritten by pass 0); `glwe_keyswitch` zeroes `res_dft` first, the
-   fused `glwe_automorphism_{add,sub,sub_negate}{,_assign}` do not. -/
-
-/-- for `dsize = 3` pass 0 writes only `size − 1` limbs and pass 1 *adds* into the last one: the previous
-content of `res` (here the `5` in limb 3) survives into the result -/
-theorem fused_reads_stale_counterexample :
-    (gglweProductDft dirty3 exA3 exKey3).act 0 ≠ (gglweProductDft (zeroBuf 1 1 4) exA3 exKey3).act 0 := by decide
-
-/-- `dsize = 1`: the result is independent of the previous content (partial: the `dsize = 1` branch) -/
-theorem product_determined_dsize1_partial (r₁ r₂ a : Buf) (key : Key) (h1 : key.dsize = 1)
+/-- `dsize = 1`: the result is independent of the previous content (the single product overwrites every limb) -/
+theorem product_determined_dsize1 (r₁ r₂ a : Buf) (key : Key) (h1 : key.dsize = 1)
     (hs : r₁.n = r₂.n ∧ r₁.cols = r₂.cols ∧ r₁.size = r₂.size) (hw1 : r₁.WF) (hw2 : r₂.WF) (c : Nat) (hc : c < r₁.cols) :
     (gglweProductDft r₁ a key).act c = (gglweProductDft r₂ a key).act c := by
   unfold gglweProductDft
@@ -524,7 +506,24 @@ theorem product_determined_dsize1_partial (r₁ r₂ a : Buf) (key : Key) (h1 : 
   unfold opVmp
   rw [setFlat_act r₁ hw1 _ c hc, setFlat_act r₂ hw2 _ c (by rw [← hs.2.1]; exact hc), hs.1, hs.2.1, hs.2.2]
 
-example : (gglweProductDft dirty3 exA3 { exKey3 with dsize := 1 }).act 0 =
-    (gglweProductDft (zeroBuf 1 1 4) exA3 { exKey3 with dsize := 1 }).act 0 := by decide
+/-- **`product_determined`** — for every admissible digit size (`dsize ≥ 1`), `gglwe_product_dft` does not
+depend on the previous content of its result buffer (two buffers of the shape the callers allocate:
+`rank_out+1` columns, `size = max_size = key.size`, degree `n`): no stale scratch data can reach a
+key-switched / automorphed / traced ciphertext. -/
+theorem product_determined (r₁ r₂ a : Buf) (key : Key) (hD : 1 ≤ key.dsize) (h1 : r₁.WF) (h2 : r₂.WF)
+    (hs1 : r₁.size = key.mat.size) (hs2 : r₂.size = key.mat.size)
+    (hm1 : r₁.maxSize = key.mat.size) (hm2 : r₂.maxSize = key.mat.size)
+    (hc1 : r₁.cols = key.mat.colsOut) (hc2 : r₂.cols = key.mat.colsOut)
+    (hn1 : r₁.n = a.n) (hn2 : r₂.n = a.n) (c : Nat) (hc : c < r₁.cols) :
+    (gglweProductDft r₁ a key).act c = (gglweProductDft r₂ a key).act c := by
+  by_cases h : key.dsize = 1
+  · exact product_determined_dsize1 r₁ r₂ a key h ⟨by rw [hn1, hn2], by rw [hc1, hc2], by rw [hs1, hs2]⟩ h1 h2 c hc
+  · exact product_determined_gt1 r₁ r₂ a key (by omega) h1 h2 hm1 hm2 hc1 hc2 hn1 hn2 c hc
+
+/-- the witness of the former defect: a result buffer holding garbage (`5` in limb 3) and a zeroed one now
+give the same product for `dsize = 3` -/
+example : (gglweProductDft dirty3 exA3 exKey3).act 0 = (gglweProductDft (zeroBuf 1 1 4) exA3 exKey3).act 0 :=
+  product_determined dirty3 (zeroBuf 1 1 4) exA3 exKey3 (by decide) AccumExample.dirty3_WF (zeroBuf_WF 1 1 4)
+    rfl rfl rfl rfl rfl rfl rfl rfl 0 (by decide)
 
 end C03
